@@ -125,6 +125,21 @@ theorem execOp_polcoh (v : TxView) (tx : Tx) (h : PolCoh v) : PolCoh (execOp v t
     rename_i c _ _
     have := blockInternal_polcoh v c h
     unfold PolCoh at *; simpa [initPolicy] using this
+  · split; · exact h
+    split
+    · exact h
+    · split; · exact h
+      split
+      · exact h
+      · rename_i w1 hw1
+        have h1 := polcoh_of_frame (incBalance_frame hw1) h
+        split
+        · exact h
+        · rename_i w2 hw2; exact polcoh_of_frame (incBalance_frame hw2) h1
+  · split; · exact h
+    split
+    · exact h
+    · exact h
   · exact h
   · exact h
 
